@@ -43,6 +43,37 @@ CLAIMED["C20"] = dict(
    note="Distance metric computed through the public rasterize conversion in f64; tolerance tau=2e-5 (measured worst excess 2.6e-7 from the library's 6-digit tables); grey midpoint band +-0.01; luma as rasterize defines it.",
    design="§3 C20")
 
+CLAIMED["C02"] = dict(
+   technique="property-based testing / generational fuzzing in a worker process: hostile grammar-aware byte strings + mutated protocol output under generated read partitions; oracles = no crash/abort/hang, exhaustion => None, scalar validity, raw-bytes-equal-span, big-integer recomputation of every numeric field",
+   level="exploration",
+   text="~1M generated byte strings per quick run (raw, hostile skeletons of every sequence family with extreme/empty parameters, malformed UTF-8, mutated well-formed output) cut into reads and fed to the event, command and UTF-8 decoders inside a worker process (aborts are attributed to the case). Numeric fields are recomputed from the input span in 128-bit arithmetic and must equal or be clamped.",
+   note="Clamp conventions are listed in the evidence assumptions. Spans come from the verif-hooks wrapper, which is cross-checked against the public API on every case.",
+   design="§3 C02")
+CLAIMED["C03"] = dict(
+   technique="property-based testing: metamorphic (token list invariant under byte-at-a-time, generated partitions and every single cut for inputs <=48 bytes) + validity predicate for leftmost-longest derived from the production DFA trace / a derivative reference matcher over generated pattern sets (hook)",
+   level="exploration",
+   text="Production event and command decoders: spans and items identical under all tested partitions (exhaustive over two-read schedules for short inputs), single-buffer tokenisation validated against the automaton's own acceptance trace. Tokeniser core: generated pattern sets built through the public NFA API run through the private tokeniser and validated against the Brzozowski matcher.",
+   note="Grouping of unrecognised bytes is not prescribed (1..=longest viable prefix accepted). For production decoders the pattern set is the production automaton itself.",
+   design="§3 C03")
+CLAIMED["C11"] = dict(
+   technique="property-based testing: model-based over generated draw/erase/response histories; output parsed by an independent APC/kitty parser and RFC 4648 decoder and executed on a kitty reference model",
+   level="exploration",
+   text="Histories of 1-15 events over content-equal images with different Arcs/strides, positions biased to the origin/edges, payload sizes around 4096-byte chunk boundaries; checks chunking, flags, payload = pixels, transmit-once, every placement refers to transmitted data, erase addresses exactly the drawn placement.",
+   note="Terminal-side semantics (p=0 = unspecified, error response invalidates an id) from the kitty graphics specification. Three signatures are listed as known findings (32-bit id collisions; the one cell (65535,65535) that cannot have its own placement id).",
+   design="§3 C11")
+CLAIMED["C12"] = dict(
+   technique="property-based testing: generated images/crops/backgrounds drawn through the sixel handler, decoded by an independent sixel interpreter; exact pixel oracle when colours fit, structural oracle otherwise; repeat-draw byte identity",
+   level="exploration",
+   text="Images 6..40 rows (thorough up to 262x300, crossing the subsampling rule) in five pixel layouts with <=8, <=256 and >256 colours, transparent pixels, crops of crops, optional background; every emitted sequence is interpreted and checked for well-formedness, full coverage of the raster, register validity and, in the exact regime, pixel equality at 0-100 resolution.",
+   note="Partly translucent pixels are accepted within the gamma/linear compositing interval +-1; >256 colours or subsampled images are checked structurally only.",
+   design="§3 C12")
+CLAIMED["C14"] = dict(
+   technique="property-based testing: differential against an independent table-free RFC 4648 codec under generated write partitions, read-size schedules and destination buffer sizes; rejection cases; bounded-exhaustive sweep of short strings and all lengths 0..400",
+   level="exploration",
+   text="Encode under arbitrary write partitions must equal the reference text; decode through readers returning 1..64 bytes per call into buffers of 1..80 bytes must return the original bytes then Ok(0); text whose length is not a multiple of 4 must produce an error; arbitrary bytes never panic.",
+   note="Reference codec checked against the RFC 4648 test vectors on every run.",
+   design="§3 C14")
+
 NOT_APPLICABLE = {}
 
 def main():
